@@ -26,7 +26,7 @@ from gvsim.sim import Raised, Sim, sut
 
 PROP = 'C02'
 TIERS = {'quick': {'runs': 1200, 'wall': 120, 'chunk': 20}, 'thorough': {'runs': 30000, 'wall': 1500, 'chunk': 25}}
-REACH = ['reseed_gv', 'np_draw', 'py_seed', 'debug_flip', 'cache_pressure', 'restart_fresh_interpreter', 'twin_pair', 'reseeded_vs_fresh', 'stochastic_draw', 'numeric_representation_in_history', 'functional_rollout_on_foreign_states', 'sampling_helpers_on_persistent_sequences']  # probes / faults that must fire in every batch (reach gaps are reported in the evidence)
+REACH = ['reseed_gv', 'np_draw', 'py_seed', 'debug_flip', 'cache_pressure', 'restart_fresh_interpreter', 'twin_pair', 'reseeded_vs_fresh', 'stochastic_draw', 'numeric_representation_in_history', 'functional_rollout_on_foreign_states', 'sampling_helpers_on_persistent_sequences', 'numpy_integer_seed']  # probes / faults that must fire in every batch (reach gaps are reported in the evidence)
 RULE = ('interleave runs: 2-4 live environments (all shipped configurations, coin_env, random compositions containing '
         'every stochastic component and every random reset; twins with equal configuration, seed and actions) whose '
         'operations a seeded scheduler interleaves with an adversary that reseeds / draws from / clears every '
@@ -62,8 +62,20 @@ def gen_client(r, run):
     return spec
 
 
+def seed_op(r):
+    """a set_seed op; one time in five the seed arrives as a numpy integer (child seeds from SeedSequence.generate_state,
+    seeds drawn with rng.integers, seeds read from an array)"""
+    s = W.gen_seed(r)
+    if r.random() < 0.2:
+        kind = r.choice(['int64', 'uint32', 'uint64'])
+        if (kind == 'uint32' and s >= 2**32) or (kind == 'int64' and s >= 2**63):
+            kind = 'uint64'
+        return ['set_seed', s, kind]
+    return ['set_seed', s]
+
+
 def client_ops(r, n):
-    ops = [['set_seed', W.gen_seed(r)], ['reset']]
+    ops = [seed_op(r), ['reset']]
     while len(ops) < n:
         m = r.random()
         if m < 0.6:
@@ -79,7 +91,7 @@ def client_ops(r, n):
             # a planner: functional calls on states that are not the environment's own state object
             ops.append(['plan', r.randrange(4), r.randrange(1 << 16), r.randint(1, 4)])
         else:
-            ops.append(['set_seed', W.gen_seed(r)])
+            ops.append(seed_op(r))
             if r.random() < 0.6:
                 ops.append(['reset'])  # a used environment, given a seed again and reset (compared with a fresh one)
     return ops
@@ -272,9 +284,13 @@ class IsoSim(Sim):
         cl.meta.setdefault('hist_op', []).append(cl.meta.get('n_ops', 0))
         self.ctx.log('h', cl.idx, items)
 
-    def op_set_seed(self, cl, seed):
-        self._around(cl, 'set_seed', lambda: cl.env.set_seed(seed))
-        self._hist(cl, 'seed', seed)
+    def op_set_seed(self, cl, seed, kind='int'):
+        value = seed
+        if kind != 'int':
+            value = getattr(np, kind)(seed)
+            self.ctx.probe('numpy_integer_seed')
+        self._around(cl, 'set_seed', lambda: cl.env.set_seed(value))
+        self._hist(cl, 'seed', seed, kind)
 
     def op_reset(self, cl):
         r = self._around(cl, 'reset', lambda: sut(cl.env.reset))
